@@ -42,7 +42,8 @@ def strict_ident(rng, with_id: bool = True) -> tuple[bytes, str, str | None]:
 
 
 def is_liberal_ident(first_line: bytes) -> bool:
-    return bool(LIBERAL_IDENT.match(first_line.strip()))
+    # what str.strip() removes from ASCII text (a decoder that strips the decoded line loses these too)
+    return bool(LIBERAL_IDENT.match(first_line.strip(b" \t\n\r\x0b\x0c\x1c\x1d\x1e\x1f")))
 
 
 def build_readout(ident_line: bytes, data_lines: list[bytes], eol: bytes = b"\r\n", checksum="correct",
@@ -91,7 +92,10 @@ def checksum_verdicts(r: bytes) -> list[str]:
 
 UNITS_K = ["kW", "kWh", "kvar", "kvarh"]
 UNITS_PLAIN = ["V", "A", "var", "varh"]
-UNITS_OTHER = ["m3", "Hz", "s", "GJ", "%"]
+UNITS_OTHER = ["m3", "Hz", "s", "GJ", "%",
+               # near misses of the eight units that are converted: another prefix, the prefix on another base unit, no prefix at all
+               "kV", "kA", "KV", "Ka", "mA", "mV", "MW", "MWh", "GWh", "W", "Wh", "w", "wh", "kVA", "kVAh", "VA", "VAh", "kvah", "Mvar", "kvar/h", "kW/h", "kWh/h",
+               "k", "kk", "kkW", "VV", "AA", "V/A", "MJ", "l", "dm3", "K", "bar", "min"]
 
 
 def random_case(rng, s: str) -> str:
